@@ -31,6 +31,7 @@ type Case struct {
 	NoKeep    bool    `json:"disable_keep_alives"`
 	Instances int     `json:"instances"`
 	Passes    int     `json:"passes"`
+	Answer    string  `json:"target_answer"` // small | empty | 5k | 100k | chunked | chunked_big
 }
 
 var cfgHeaderNames = []string{"X-Test", "Accept", "User-Agent", "Cookie", "X-Cfg-Only", "Authorization", "X-Other-Cfg", "Referer"}
@@ -70,6 +71,8 @@ func genCase(t *rapid.T) Case {
 	c.NoKeep = rapid.IntRange(0, 3).Draw(t, "noKeepAlive") == 0
 	c.Instances = rapid.IntRange(1, 4).Draw(t, "instances")
 	c.Passes = rapid.IntRange(1, 2).Draw(t, "passes")
+	// what the target answers: the gun must drain any answer to keep its connection
+	c.Answer = rapid.SampledFrom([]string{"small", "small", "empty", "5k", "100k", "chunked", "chunked_big"}).Draw(t, "answer")
 	return c
 }
 
@@ -145,7 +148,21 @@ func check(c Case, o *vf.Obs) error {
 	tg, mu := target.Shared(c.SSL)
 	mu.Lock()
 	defer mu.Unlock()
-	tg.Reset(nil)
+	tg.Reset(func(seq int, r *target.Rec) target.Resp {
+		switch c.Answer {
+		case "empty":
+			return target.Resp{Status: 200}
+		case "5k":
+			return target.Resp{Status: 200, Body: bytes.Repeat([]byte("0123456789"), 500)}
+		case "100k":
+			return target.Resp{Status: 200, Body: bytes.Repeat([]byte("0123456789abcdef"), 6400)}
+		case "chunked":
+			return target.Resp{Status: 200, Chunks: [][]byte{[]byte("first,"), []byte("second,"), []byte("third")}}
+		case "chunked_big":
+			return target.Resp{Status: 200, Chunks: [][]byte{bytes.Repeat([]byte("a"), 3000), bytes.Repeat([]byte("b"), 9000), []byte("end")}}
+		}
+		return target.Resp{Status: 200, Body: []byte("ok")}
+	})
 	want := expected(c)
 	E := len(want)
 	total := E * c.Passes
@@ -255,6 +272,8 @@ func check(c Case, o *vf.Obs) error {
 	}
 	o.Class("format_" + c.File.Format)
 	o.ClassIf(c.File.Big, "file_larger_than_reader_buffer")
+	o.Class("answer_" + c.Answer)
+	o.ClassIf(!c.NoKeep && (c.Answer == "100k" || c.Answer == "chunked" || c.Answer == "chunked_big" || c.Answer == "5k"), "keep_alive_with_multi_read_answer")
 	o.ClassIf(overlap, "config_header_overlaps_ammo")
 	o.ClassIf(overlap, "overlap_"+c.File.Format)
 	o.ClassIf(hostAmmo, "host_from_ammo")
